@@ -334,6 +334,7 @@ func Access(p unsafe.Pointer, write bool, site string) {
 		return
 	}
 	t := s.self()
+	s.Accesses++
 	if s.AccessYields {
 		s.yield(t, nil, "access "+site)
 	}
